@@ -1,0 +1,203 @@
+//go:build verif
+
+package sugardb
+
+import (
+	"context"
+	"fmt"
+	"net"
+	"sort"
+	"sync/atomic"
+	"time"
+
+	"github.com/echovault/sugardb/internal/modules/set"
+	"github.com/echovault/sugardb/internal/modules/sorted_set"
+	"github.com/echovault/sugardb/internal/verif"
+)
+
+// This file is only compiled with the "verif" build tag. It exposes the observation
+// and control surface used by the external verification harness (/verif): a virtual
+// clock, a projection of the internal state onto plain Go values, and entry points
+// for background actors. Nothing here is used by the server itself.
+
+// VerifSetHandler installs the process-wide handler invoked at every verif.Point.
+func VerifSetHandler(h func(name string, args ...any)) { verif.SetHandler(h) }
+
+// VerifClock is a clock whose time only moves when the harness says so.
+type VerifClock struct {
+	base time.Time
+	off  atomic.Int64 // milliseconds added to base
+}
+
+// NewVerifClock returns a virtual clock starting at base.
+func NewVerifClock(base time.Time) *VerifClock { return &VerifClock{base: base} }
+
+func (c *VerifClock) Now() time.Time {
+	return c.base.Add(time.Duration(c.off.Load()) * time.Millisecond)
+}
+
+func (c *VerifClock) After(d time.Duration) <-chan time.Time { return time.After(d) }
+
+// AdvanceMs moves the virtual clock forward.
+func (c *VerifClock) AdvanceMs(ms int64) { c.off.Add(ms) }
+
+// SetMs sets the offset from base in milliseconds.
+func (c *VerifClock) SetMs(ms int64) { c.off.Store(ms) }
+
+// Base returns the instant the clock started from.
+func (c *VerifClock) Base() time.Time { return c.base }
+
+// WithVerifClock makes the server (and the engines constructed from it) use the virtual clock.
+func WithVerifClock(c *VerifClock) func(sugardb *SugarDB) {
+	return func(sugardb *SugarDB) {
+		sugardb.clock = c
+	}
+}
+
+// VerifValue is a plain-data projection of one stored value.
+// Kind is one of: nil, string, int, int64, float, list, hash, set, zset, other.
+type VerifValue struct {
+	Kind  string
+	Str   string
+	Int   int64
+	Flt   float64
+	List  []string
+	Hash  map[string]VerifValue
+	Set   []string
+	ZSet  map[string]float64
+	Other string
+}
+
+// VerifEntry is one key of the keyspace.
+type VerifEntry struct {
+	Value       VerifValue
+	HasDeadline bool
+	ExpireAt    time.Time
+}
+
+// VerifConn is the connection information the server keeps for one client.
+type VerifConn struct {
+	Id       uint64
+	Name     string
+	Protocol int
+	Database int
+}
+
+// VerifState is a snapshot of the server's internal state.
+type VerifState struct {
+	DBs      map[int]map[string]VerifEntry
+	Volatile map[int][]string
+	LRU      map[int][]string
+	LFU      map[int][]string
+	MemUsed  int64
+	Embedded VerifConn
+	TCP      []VerifConn
+	Mutating bool
+	Copying  bool
+}
+
+func verifProject(v interface{}) VerifValue {
+	switch x := v.(type) {
+	case nil:
+		return VerifValue{Kind: "nil"}
+	case string:
+		return VerifValue{Kind: "string", Str: x}
+	case int:
+		return VerifValue{Kind: "int", Int: int64(x)}
+	case int64:
+		return VerifValue{Kind: "int64", Int: x}
+	case float64:
+		return VerifValue{Kind: "float", Flt: x}
+	case []string:
+		return VerifValue{Kind: "list", List: append([]string{}, x...)}
+	case map[string]interface{}:
+		h := make(map[string]VerifValue, len(x))
+		for f, fv := range x {
+			h[f] = verifProject(fv)
+		}
+		return VerifValue{Kind: "hash", Hash: h}
+	case *set.Set:
+		m := append([]string{}, x.GetAll()...)
+		sort.Strings(m)
+		return VerifValue{Kind: "set", Set: m, Int: int64(x.Cardinality())}
+	case *sorted_set.SortedSet:
+		z := make(map[string]float64)
+		for _, m := range x.GetAll() {
+			z[string(m.Value)] = float64(m.Score)
+		}
+		return VerifValue{Kind: "zset", ZSet: z}
+	default:
+		return VerifValue{Kind: "other", Other: fmt.Sprintf("%T", v)}
+	}
+}
+
+// VerifDump returns a projection of the whole internal state, taken under the locks
+// that protect each part.
+func (server *SugarDB) VerifDump() VerifState {
+	st := VerifState{
+		DBs:      make(map[int]map[string]VerifEntry),
+		Volatile: make(map[int][]string),
+		LRU:      make(map[int][]string),
+		LFU:      make(map[int][]string),
+	}
+
+	server.storeLock.RLock()
+	for db, data := range server.store {
+		st.DBs[db] = make(map[string]VerifEntry, len(data))
+		for k, e := range data {
+			st.DBs[db][k] = VerifEntry{
+				Value:       verifProject(e.Value),
+				HasDeadline: e.ExpireAt != (time.Time{}),
+				ExpireAt:    e.ExpireAt,
+			}
+		}
+	}
+	st.MemUsed = server.memUsed
+	server.keysWithExpiry.rwMutex.RLock()
+	for db, keys := range server.keysWithExpiry.keys {
+		st.Volatile[db] = append([]string{}, keys...)
+	}
+	server.keysWithExpiry.rwMutex.RUnlock()
+	if server.lruCache.cache != nil {
+		for db, c := range server.lruCache.cache {
+			c.Mutex.Lock()
+			st.LRU[db] = c.VerifKeys()
+			c.Mutex.Unlock()
+		}
+	}
+	if server.lfuCache.cache != nil {
+		for db, c := range server.lfuCache.cache {
+			c.Mutex.Lock()
+			st.LFU[db] = c.VerifKeys()
+			c.Mutex.Unlock()
+		}
+	}
+	server.storeLock.RUnlock()
+
+	server.connInfo.mut.RLock()
+	st.Embedded = VerifConn{
+		Id:       server.connInfo.embedded.Id,
+		Name:     server.connInfo.embedded.Name,
+		Protocol: server.connInfo.embedded.Protocol,
+		Database: server.connInfo.embedded.Database,
+	}
+	for _, info := range server.connInfo.tcpClients {
+		st.TCP = append(st.TCP, VerifConn{Id: info.Id, Name: info.Name, Protocol: info.Protocol, Database: info.Database})
+	}
+	server.connInfo.mut.RUnlock()
+	sort.Slice(st.TCP, func(i, j int) bool { return st.TCP[i].Id < st.TCP[j].Id })
+
+	st.Mutating = server.stateMutationInProgress.Load()
+	st.Copying = server.stateCopyInProgress.Load()
+	return st
+}
+
+// VerifRunSampler runs one invocation of the background expiry sampler for a database.
+func (server *SugarDB) VerifRunSampler(database int) error {
+	ctx := context.WithValue(context.Background(), "Database", database)
+	return server.evictKeysWithExpiredTTL(ctx)
+}
+
+// VerifServeConn serves one connection with the server's real connection handler
+// (used with net.Pipe so that the segmentation of the byte stream is deterministic).
+func (server *SugarDB) VerifServeConn(conn net.Conn) { server.handleConnection(conn) }
